@@ -3,10 +3,18 @@ package msgformat
 import (
 	"encoding/binary"
 	"errors"
+	"math"
 )
+
+// ErrMessageTooLong is returned when the length of a message does not fit in the length prefix of
+// its format (one byte for requests, two bytes for responses).
+var ErrMessageTooLong = errors.New("message too long for length prefix")
 
 // Add length prefix to message
 func AddRequestFormat(p []byte) ([]byte, error) {
+	if len(p) > math.MaxUint8 {
+		return nil, ErrMessageTooLong
+	}
 	length := uint8(len(p))
 	prefixed := append([]byte{length}, p...)
 	return prefixed, nil
@@ -26,6 +34,9 @@ func RemoveRequestFormat(p []byte) ([]byte, error) {
 
 // Add length prefix to response, using uint16 instad of uint8 for larger payload
 func AddResponseFormat(p []byte) ([]byte, error) {
+	if len(p) > math.MaxUint16 {
+		return nil, ErrMessageTooLong
+	}
 	length := uint16(len(p))
 	b := make([]byte, 2)
 	binary.BigEndian.PutUint16(b, length)
